@@ -5,6 +5,7 @@
     [from_wire]: what Read builds from New<T>()); [gwrite] / [gread] are the generated Write / Read. *)
 From Coq Require Import ZArith List Bool Lia.
 From FV Require Import Base.Res Base.Bytes Model.ThriftBin Proofs.ThriftBinProofs Proofs.ThriftBinGoProofs Model.GoGenPlan Proofs.GoGenPlanProofs.
+From FV Require Import Model.ThriftCompact Proofs.ThriftCompactProofs.
 Import ListNotations.
 Open Scope Z_scope.
 
@@ -193,3 +194,168 @@ Proof.
   - eapply gwf_list; [reflexivity|cbn; lia|].
     constructor; [apply HP; lia|constructor; [apply HP; lia|constructor]].
 Qed.
+
+(** * The compact protocol (Model/ThriftCompact.v: Apache Thrift's TCompactProtocol as the generated
+    code drives it; [cenc] / [cdec] / [cskip] the codec, [gcwrite] / [gcread] the generated Write /
+    Read; the Go-struct layer [to_wire] / [from_wire] is the one of the binary theorems above).
+    TJSON has no Coq specification: it stays differential (tools/props/c02.py). *)
+
+(** zigzag: int32ToZigzag / int64ToZigzag (shift-and-xor, as in the Go source) map the signed range
+    one-to-one onto the unsigned range, small magnitudes to small codes, and zigzagToInt32 /
+    zigzagToInt64 invert them *)
+Theorem c02_compact_zigzag32 : forall n, -2147483648 <= n < 2147483648 ->
+  zigzag32 n = (if n <? 0 then -2 * n - 1 else 2 * n) /\ 0 <= zigzag32 n < 4294967296 /\
+  unzigzag32 (zigzag32 n) = n.
+Proof. exact (fun n H => conj (zigzag32_spec n H) (conj (zigzag32_range n H) (unzigzag32_zigzag32 n H))). Qed.
+Print Assumptions c02_compact_zigzag32.
+
+Theorem c02_compact_zigzag64 : forall n, -9223372036854775808 <= n < 9223372036854775808 ->
+  zigzag64 n = (if n <? 0 then -2 * n - 1 else 2 * n) /\ 0 <= zigzag64 n < 18446744073709551616 /\
+  unzigzag64 (zigzag64 n) = n.
+Proof. exact (fun n H => conj (zigzag64_spec n H) (conj (zigzag64_range n H) (unzigzag64_zigzag64 n H))). Qed.
+Print Assumptions c02_compact_zigzag64.
+
+Theorem c02_compact_zigzag32_onto : forall u, 0 <= u < 4294967296 -> zigzag32 (unzigzag32 u) = u.
+Proof. exact zigzag32_unzigzag32. Qed.
+Print Assumptions c02_compact_zigzag32_onto.
+
+(** varints: readVarint64 reads back what writeVarint32 / writeVarint64 wrote (any 64-bit pattern,
+    1 to 10 bytes) and leaves what follows untouched *)
+Theorem c02_compact_varint_roundtrip : forall u rest, 0 <= u < 18446744073709551616 ->
+  read_varint (varint u ++ rest) = Ok (u, rest) /\ (1 <= length (varint u) <= 10)%nat.
+Proof. exact (fun u rest H => conj (varint_roundtrip u rest H) (varint_length u)). Qed.
+Print Assumptions c02_compact_varint_roundtrip.
+
+(** field headers: from the same lastFieldId the reader gets back the id and the TType of the
+    nibble; a nibble 1 / 2 (bool true / false) leaves the value pending for the next ReadBool;
+    the header is one byte exactly when 0 < id - lastFieldId <= 15 *)
+Theorem c02_compact_field_header : forall pb last id ct wt rest,
+  in_range 2 last -> in_range 2 id -> 1 <= ct <= 13 -> ttype_of_ctype ct = Some wt ->
+  c_field_hdr last (pb, cfield_hdr last id ct ++ rest) =
+    Ok ((wt, id), (if (ct =? 1) || (ct =? 2) then Some (ct =? 1) else pb, rest)) /\
+  (0 < id - last <= 15 -> cfield_hdr last id ct = [(id - last) * 16 + ct]) /\
+  (id - last <= 0 \/ 15 < id - last -> cfield_hdr last id ct = ct :: varint32 (zigzag32 id)).
+Proof.
+  exact (fun pb last id ct wt rest Hl Hi Hc Ht =>
+           conj (c_field_hdr_ok pb last id ct wt rest Hl Hi Hc Ht)
+                (conj (cfield_hdr_short last id ct) (cfield_hdr_long last id ct))).
+Qed.
+Print Assumptions c02_compact_field_header.
+
+(** Round trip of the compact wire encoding, for every environment, type and well-typed wire value
+    (the same [wwt] as for binary), nested containers and structs to any depth (the last-field-id
+    stack is the recursion), bools folded into field headers: a fresh reader (no pending bool)
+    returns the value, has no pending bool left and leaves what follows untouched. *)
+Theorem c02_compact_codec_roundtrip : forall e t w fuel rest,
+  wwt e t w -> (wsize w <= fuel)%nat ->
+  cdec fuel e t (None, cenc e t w ++ rest) = Ok (w, (None, rest)).
+Proof. exact compact_codec_roundtrip. Qed.
+Print Assumptions c02_compact_codec_roundtrip.
+
+(** The emitted struct code round-trips every Go value of a declared type under the compact
+    protocol: Read (Write v ++ rest) = (v, rest); same hypothesis [gwf] as [c02_roundtrip]. *)
+Theorem c02_compact_roundtrip : forall e t v rest,
+  gwf e t v ->
+  exists b fuel0, gcwrite e t v = Ok b /\
+                  forall fuel, (fuel0 <= fuel)%nat -> gcread fuel e t (b ++ rest) = Ok (v, rest).
+Proof. exact compact_write_read_roundtrip. Qed.
+Print Assumptions c02_compact_roundtrip.
+
+(** Field rules under compact: exactly the fields [written] (required/default, or optional and set),
+    in declaration order, as compact field headers (delta or long form from lastFieldId 0, bools
+    folded) and values, then STOP *)
+Theorem c02_compact_field_rules : forall e t ovs b,
+  gcwrite e t (VStruct ovs) = Ok b ->
+  exists k decls l,
+    shape_of e t = SStruct k decls /\
+    (is_union k = true -> count_set e decls ovs = 1) /\
+    written_spec e decls ovs l /\ map fst l = written_ids e decls ovs /\
+    b = cenc_fields e (ftyp_of decls) l 0.
+Proof. exact gcwrite_struct. Qed.
+Print Assumptions c02_compact_field_rules.
+
+(** non-vacuity for compact: the value of [c02_nonvacuous] (typedef chain, enum, nested containers,
+    union, defaults) with its bytes: 0x15 = field 1 (delta 1) i32, 0x1B map, 0x59 = key i32 / value
+    list, 0x2C = 2 structs, 0x26 = 2 i64, 0x28 = field 2 (delta 2) binary ... *)
+Example c02_compact_nonvacuous :
+  gcwrite ex_env (TRef 6) ex_val =
+  Ok [21;4;  27;1;89;2;44; 21;5;0; 21;18;21;12;0;  26;38;1;128;128;128;128;32;
+      28;40;2;104;105;0;  24;0;  0]
+  /\ (forall b, gcwrite ex_env (TRef 6) ex_val = Ok b ->
+      gcread 100 ex_env (TRef 6) (b ++ [42]) =
+      Ok (VStruct [ Some (VInt 2);
+                    Some (VMap [(VInt 1, VList [VStruct [Some (VInt (-3)); Some (VInt 5)]; VStruct [Some (VInt 9); Some (VInt 6)]])]);
+                    Some (VSet [VInt (-1); VInt 4294967296]);
+                    Some (VStruct [None; Some (VBytes [104; 105])]);
+                    Some (VBytes []);
+                    Some (VDouble 7) ], [42])).
+Proof.
+  split; [vm_compute; reflexivity|].
+  intros b H. vm_compute in H. injection H as <-. vm_compute. reflexivity.
+Qed.
+
+(** bools: folded into the header as a field (type 1 / 2, no value byte; long form for id 40),
+    one byte each inside a container *)
+Example c02_compact_bool_nonvacuous :
+  let e := [(1, DStruct KStruct [mkField 1 MDefault TBool None; mkField 40 MDefault TBool None;
+                                 mkField 41 MDefault (TList TBool) None])] in
+  let v := VStruct [Some (VBool false); Some (VBool true); Some (VList [VBool true; VBool false])] in
+  gcwrite e (TRef 1) v = Ok [18;  1;80;  25;33;1;2;  0] /\
+  gcread 20 e (TRef 1) [18; 1;80; 25;33;1;2; 0; 7] = Ok (v, [7]).
+Proof. split; vm_compute; reflexivity. Qed.
+
+(** thrift.Skip over the compact protocol consumes exactly one encoded value (nesting below the
+    depth limit) and leaves no bool pending *)
+Theorem c02_compact_skip_exact : forall e w t fuel depth rest,
+  wwt e t w -> (wsize w <= fuel)%nat -> wdepth w <= depth ->
+  cskip fuel depth (wtype e t) (None, cenc e t w ++ rest) = Ok (None, rest).
+Proof. exact compact_skip_exact. Qed.
+Print Assumptions c02_compact_skip_exact.
+
+(** Unknown fields are skipped under compact: a reader that declares [decls] reads what a writer with
+    a larger schema [ftyp] (agreeing on the reader's ids) wrote from any lastFieldId, and gets
+    exactly the fields it declares, in order; the others (any type, bools folded into their header,
+    nesting below Thrift's depth limit 64) are skipped, and the field-id deltas stay in step. *)
+Theorem c02_compact_unknown_fields_skipped : forall e decls ftyp l,
+  (forall id ft, ftyp_of decls id = Some ft -> ftyp id = Some ft) ->
+  Forall (wwt_entry_by e ftyp) l ->
+  Forall (fun ix => wdepth (snd ix) <= 64) l ->
+  forall fuel last rest, in_range 2 last -> (size_fields l <= fuel)%nat ->
+  cdec_fields fuel e decls last (None, cenc_fields e ftyp l last ++ rest) = Ok (filter (known decls) l, (None, rest)).
+Proof. exact compact_unknown_fields_skipped. Qed.
+Print Assumptions c02_compact_unknown_fields_skipped.
+
+(** binary and compact carry the same wire value: both readers return [w] from their own encoding *)
+Theorem c02_compact_binary_same_value : forall e t w fuel r1 r2,
+  wwt e t w -> (wsize w <= fuel)%nat ->
+  exists s, cdec fuel e t (None, cenc e t w ++ r1) = Ok (w, s) /\ wdec fuel e t (wenc e t w ++ r2) = Ok (w, r2).
+Proof. exact compact_binary_same_value. Qed.
+Print Assumptions c02_compact_binary_same_value.
+
+(** non-vacuity of the unknown-field theorem: a writer that also knows field 7 (a struct holding a
+    bool and a list) and field 9 (bool) is read by a reader that declares only fields 1 and 12 *)
+Example c02_compact_unknown_nonvacuous :
+  let e := [(1, DStruct KStruct [mkField 1 MDefault TBool None; mkField 2 MDefault (TList TI32) None])] in
+  let decls := [mkField 1 MDefault TI32 None; mkField 12 MDefault TString None] in
+  let ftyp := fun id => if id =? 1 then Some TI32 else if id =? 7 then Some (TRef 1)
+                        else if id =? 9 then Some TBool else if id =? 12 then Some TString else None in
+  let l := [(1, VInt (-5)); (7, VRec [(1, VBool true); (2, VList [VInt 300])]); (9, VBool false); (12, VBytes [120])] in
+  cenc_fields e ftyp l 0 = [21;9;  108; 17; 25;21;216;4; 0;  34;  56;1;120;  0] /\
+  cdec_fields 20 e decls 0 (None, cenc_fields e ftyp l 0 ++ [9]) = Ok ([(1, VInt (-5)); (12, VBytes [120])], (None, [9])).
+Proof. split; vm_compute; reflexivity. Qed.
+
+(** No byte sequence makes the compact reader of the model panic: whatever the input, the pending
+    bool, the declared type and the fuel, [cdec] and the generated Read [gcread] end in a value, an
+    error or fuel exhaustion (the harness observes no panic either; a nil required struct field can
+    only panic the *writer*, [nil_wire]) *)
+Theorem c02_compact_read_never_panics : forall fuel e t b p st,
+  gcread fuel e t b <> Panic p /\ cdec fuel e t st <> Panic p.
+Proof. exact (fun fuel e t b p st => conj (compact_read_no_panic fuel e t b p) (compact_reader_no_panic fuel e t st p)). Qed.
+Print Assumptions c02_compact_read_never_panics.
+
+(** the compact encoding determines the value (and is prefix-free): two well-typed wire values of a
+    type whose encodings, followed by anything, coincide are equal, and so is what follows *)
+Theorem c02_compact_encoding_injective : forall e t w1 w2 r1 r2,
+  wwt e t w1 -> wwt e t w2 -> cenc e t w1 ++ r1 = cenc e t w2 ++ r2 -> w1 = w2 /\ r1 = r2.
+Proof. exact compact_encoding_injective. Qed.
+Print Assumptions c02_compact_encoding_injective.
